@@ -80,7 +80,7 @@ func (c01) Cases(tier string) int {
 }
 
 func (c01) Rule() string {
-	return "L2.point: 10 point strings per case (rendered `key[:index][#id]` with ids containing the separators, and arbitrary strings over the separators) through executorGetPointData / isListElement and Pt.parsePoint / Pt.isListElement; corpus of minimised past failures, then random federations (monolith schema partitioned over 2-4 services, fields homed at 1-2 services, optional priorities) x random data graphs (nulls, empty/long lists, cycles, ids with ':' '#' space, non-ASCII) x type-directed queries (aliases, inline/untyped/named fragments, @skip/@include literal and variable, __typename, node(id)); a case is non-trivial when the gateway made at least 2 service calls; distinct = distinct (federation, query) text; inputs in open known-finding regions are excluded from the random stream and exercised through their canonical replay"
+	return "L2.point: 10 point strings per case (rendered `key[:index][#id]` with ids containing the separators, and arbitrary strings over the separators) through executorGetPointData / isListElement and Pt.parsePoint / Pt.isListElement; corpus of minimised past failures, then random federations (monolith schema partitioned over 2-4 services, fields homed at 1-2 services, optional priorities) x random data graphs (nulls, empty/long lists, cycles, ids with ':' '#' space, non-ASCII) x type-directed queries (aliases, inline/untyped/named fragments, @skip/@include literal and variable, __typename, node(id)); every 20th generated case a three-level plan under a list of 40-160 elements, executed 4 times; a case is non-trivial when the gateway made at least 2 service calls; distinct = distinct (federation, query) text; inputs in open known-finding regions are excluded from the random stream and exercised through their canonical replay"
 }
 
 // GenFedInput draws a random federated input for case i.
@@ -110,6 +110,7 @@ func GenFedInput(c *Ctx, i int, forC string) (FedInput, map[string]bool) {
 			p = []string{"nowhere"}
 		}
 		spec.Priorities = p
+		spec.PrioritiesFirst = r.Intn(2) == 0
 	}
 	g := &QGen{R: r, Schema: MonoSchema(), F: QFeat{Inline: true, Untyped: true, Named: r.Intn(3) != 0, Directives: r.Intn(3) != 0,
 		CompositeDirectives: r.Intn(4) == 0, AliasShadow: true, Typename: true, NodeRoot: r.Intn(5) == 0, RepeatKeys: r.Intn(6) == 0, ArgVars: true, Depth: 2 + r.Intn(3)}}
@@ -154,16 +155,31 @@ func GenFedInput(c *Ctx, i int, forC string) (FedInput, map[string]bool) {
 
 func (c01) Run(c *Ctx, i int) CaseResult {
 	var in FedInput
+	repeat := 0
 	feats := map[string]bool{}
 	id := ""
 	if i < len(FedCorpus) {
 		in, id = FedCorpus[i].In, "corpus:"+FedCorpus[i].ID
 		feats["corpus"] = true
+	} else if i%20 == 7 {
+		// wide and deep: a long list, follow-ups of follow-ups below it (hundreds of step results under way at once,
+		// children whose results come in around their parent's); run several times, every answer must be the monolith's
+		r := c.Rand(i + 86000000)
+		in = FedInput{Spec: FixedFed(), StoreSeed: 5, ListLen: []int{40, 100, 160}[r.Intn(3)],
+			Query: []string{`{ allUsers { photos { likes } } }`, `{ allUsers { firstName photos { url likes likedBy { firstName } } } }`,
+				`{ allUsers { friends { lastName photos { likes } } } }`, `{ allUsers { lastName photos { url likes owner { nick } } } }`}[r.Intn(4)]}
+		if r.Intn(3) > 0 {
+			// follow-up calls are released together, so that their results come in as a burst
+			in.Barrier = []int{12, 30, 60}[r.Intn(3)]
+		}
+		feats["wide-three-levels"] = true
+		repeat = 3
+		id = fmt.Sprintf("gen:%d", i)
 	} else {
 		in, feats = GenFedInput(c, i, "C01")
 		id = fmt.Sprintf("gen:%d", i)
 	}
-	res := CaseResult{ID: id, Key: fmt.Sprint(in.Spec.SDLs, in.Spec.Priorities, in.Query, in.OddIDs)}
+	res := CaseResult{ID: id, Key: fmt.Sprint(in.Spec.SDLs, in.Spec.Priorities, in.Query, in.OddIDs, in.ListLen)}
 	// L2: executorGetPointData / isListElement against Pt.parsePoint / Pt.isListElement (10 point strings per case)
 	for k := 0; k < 10; k++ {
 		if fails := PointCorr(c, c.Rand(i*100+k+88000000)); len(fails) > 0 {
@@ -211,7 +227,17 @@ func (c01) Run(c *Ctx, i int) CaseResult {
 		res.Fails = append(res.Fails, Failure{Channel: "L0.mono", Classifier: cl, What: what, Input: fin, Expected: ffc.Want,
 			Observed: map[string]interface{}{"data": ffc.Out.Data, "error": ErrString(ffc.Out.Err), "plan": PlanText(ffc.Out.Plans), "original_query": in.Query}})
 	}
-	if len(res.Fails) == 0 && i%3 == 0 && !fc.Out.PlanErr && !fc.Out.PlanHung && !fc.Out.Hung && fc.Out.Panicked == nil {
+	for k := 0; k < repeat && len(res.Fails) == 0; k++ {
+		again, err := RunFed(c, in, 8*time.Second)
+		if err != nil {
+			break
+		}
+		if ok, what := again.Status(); !ok {
+			res.Fails = append(res.Fails, Failure{Channel: "L0.mono", Classifier: again.Classifier(), What: fmt.Sprintf("%s (repetition %d of the same request)", what, k+2), Input: in, Expected: again.Want,
+				Observed: map[string]interface{}{"data": again.Out.Data, "error": ErrString(again.Out.Err), "plan": PlanText(again.Out.Plans)}})
+		}
+	}
+	if len(res.Fails) == 0 && i%3 == 0 && repeat == 0 && !fc.Out.PlanErr && !fc.Out.PlanHung && !fc.Out.Hung && fc.Out.Panicked == nil {
 		// L2: the executor's data path (join ids, node stripping, insertion points, stitching) against the executor model
 		xf, note := ExecCorr(c, in)
 		res.Fails = append(res.Fails, xf...)
